@@ -42,10 +42,11 @@ type CmdEnv struct {
 	TimeConv      string // config time_convention
 	NumCpus       int
 	OnTick        func(k int) `json:"-"` // environment event before refresh k of a repeating command
+	Secs          int         // seconds within the minute of the clock reading (the model works in whole minutes)
 }
 
 func (e CmdEnv) Clock() gotime.Time {
-	return dateAt(e.Today.Y, e.Today.M, e.Today.D, e.NowMins/60, e.NowMins%60)
+	return dateAt(e.Today.Y, e.Today.M, e.Today.D, e.NowMins/60, e.NowMins%60).Add(gotime.Duration(e.Secs) * gotime.Second)
 }
 
 func (e CmdEnv) ConfigFile() string {
